@@ -323,6 +323,9 @@ func c03RunJob(j *c03Job) (res c03Result) {
 	res.ID = j.ID
 	res.Must = j.MustTerminate
 	c03Watchdog = c03Timeout
+	if j.MustTerminate {
+		c03Watchdog = 3 * time.Second // these scripts finish in milliseconds
+	}
 	if j.SlowMS > 0 {
 		c03Watchdog = time.Duration(j.SlowMS) * time.Millisecond
 	}
@@ -1376,21 +1379,12 @@ func cmdC03Fuzz(a cmdArgs) {
 				slow = true
 			}
 		}
-		wedged := false
-		for _, sg := range c03Sigs(&res) {
-			if sg.Kind == "wedged" {
-				wedged = true
-			}
-		}
-		if !slow && !wedged {
+		if !slow {
 			continue
 		}
 		confirmed++
 		j := jobs[i]
 		j.SlowMS = 60000
-		if wedged && !slow {
-			j.SlowMS = 20000 // a script that terminates by construction: 20 s alone on the machine is beyond doubt
-		}
 		rs, ds := c03RunBatch(tmp, fmt.Sprintf("slow%d", i), []c03Job{j})
 		if r2, ok := rs[j.ID]; ok {
 			results[i] = r2
@@ -1546,6 +1540,7 @@ func cmdC03Fuzz(a cmdArgs) {
 		ok  bool
 	}
 	shrunk := make([]shr, len(order))
+	slowOnly := map[string]bool{} // wedged candidates that returned when run alone with a 20 s watchdog
 	var wg2 sync.WaitGroup
 	sem := make(chan bool, workers)
 	for i, gk := range order {
@@ -1556,8 +1551,25 @@ func cmdC03Fuzz(a cmdArgs) {
 			continue
 		}
 		if f.sig.Kind == "wedged" {
-			// every candidate in a child of its own with a 1.5 s watchdog (these scripts finish in milliseconds)
+			// first: is it beyond doubt?  the representative runs alone with a 20 s watchdog
 			want := f.sig
+			cj := f.job
+			cj.ID, cj.SlowMS = 0, 20000
+			crs, _ := c03RunBatch(tmp, fmt.Sprintf("cw%d", i), []c03Job{cj})
+			still := false
+			if cr, ok := crs[0]; ok {
+				for _, sg := range c03Sigs(&cr) {
+					if sg.Kind == "wedged" && sg.Entry == want.Entry {
+						still = true
+					}
+				}
+			}
+			if !still {
+				slowOnly[gk] = true // returned within 20 s: a slow machine, not a wedged host
+				shrunk[i] = shr{gk, f.job, false}
+				continue
+			}
+			// every candidate in a child of its own with a 1.5 s watchdog (these scripts finish in milliseconds)
 			j := c03ShrinkBy(tmp, 1000+i, f.job, func(c *c03Job, n int) bool {
 				c.ID, c.SlowMS = 0, 1500
 				rs, _ := c03RunBatch(tmp, fmt.Sprintf("sw%d_%d", i, n), []c03Job{*c})
@@ -1588,6 +1600,11 @@ func cmdC03Fuzz(a cmdArgs) {
 	wg2.Wait()
 	for i, gk := range order {
 		f := groups[gk]
+		if slowOnly[gk] {
+			delete(count, gk)
+			st.Extra["slow_but_returning_terminating_scripts"] = len(slowOnly)
+			continue
+		}
 		j := shrunk[i].job
 		// re-run the minimised job (in a child) to report the observation that belongs to it
 		res := f.res
